@@ -26,6 +26,8 @@ def gen_complete_wide(rng, tier):
     for _ in range(c05.n_programs(tier, quick=100)):
         ws = c05.gen_wide_workspace(rng, unique=True)
         out.append(c05.make_case([(fn, text) for fn, text, _ in ws], c05.prefix_steps(ws)))
+    for ws in c05.chain_workspaces(rng, tier, 12, unique=True):     # call-chain STATEMENTS with callbacks (seeded C05-5)
+        out.append(c05.make_case([(fn, text) for fn, text, _ in ws], c05.prefix_steps(ws)))
     return out
 
 
@@ -33,6 +35,8 @@ def gen_corr_wide(rng, tier):
     out = []
     for _ in range(c05.n_programs(tier, quick=60)):
         ws = c05.gen_wide_workspace(rng)
+        out.append(c05.make_case([(fn, text) for fn, text, _ in ws], c05.prefix_steps(ws)))
+    for ws in c05.chain_workspaces(rng, tier, 6):
         out.append(c05.make_case([(fn, text) for fn, text, _ in ws], c05.prefix_steps(ws)))
     return out
 
